@@ -179,7 +179,8 @@ static KV genCase()
     s.alpha    = rint(0, 3);
     s.beta     = rint(0, 1);
     // shipped shape parameters (the property quantifies over the shipped problems)
-    s.Rmax = 1.3;
+    // ... and --Rmax is one of their parameters: exact solutions, profiles and mappings all take it (1.3 is the default)
+    s.Rmax = rpick({1.3, 1.3, 1.3, 1.0, 2.0});
     if (s.geometry == 1) {
         s.kappa_eps = 0.3;
         s.delta_e   = 0.2;
